@@ -5,23 +5,25 @@
     functions) is interpreted over the reals ([TOpsR]); the same terms are run at binary64
     against the Rust code by the correspondence check.
 
-    Partial items (statements kept visible in Nonsym/Spec.v):
-    - [stmt_pow_third_order]: proved as [C14_pow_third_order_partial] under the hypothesis that
-      the Cholesky factorisation of the stored Hessian succeeds (it does on SPD matrices by
-      [C14_cholesky_3x3]; positive definiteness of the power-cone Hessian is not proved);
-    - [stmt_pow_primal_grad_conjugate] (conjugacy of the power-cone primal gradient given the
-      root equation) and gradient/Hessian theorems for the generalised power cone are not
-      proved; they are covered by the per-sample checks of Nonsym/Check.v only;
-    - [C14_pd_scaling]: Hs is proved symmetric positive semidefinite with kernel inside
+    Partial items:
+    - generalised power cone: the stored gradient is proved to be the derivative of the dual
+      barrier only for (dim1, dim2) in {(2,1), (2,2), (3,1)} ([C14_gp_grad_is_derivative_d.._partial]);
+      the general-dimension statement, the Hessian representation D + pp' - qq' - rr' and the
+      conjugacy of its primal gradient are not proved (per-sample checks only; the primal
+      gradient is in fact NOT the conjugate map for dim2 > 0: known finding F4);
+    - [C14_pd_scaling]: Hs is proved symmetric positive semidefinite with kernel inside the
       {s, delta_s}-orthogonal complement; strict definiteness needs t > 0 and independence of
       the three directions and is not proved;
     - convergence of the Wright-omega / Newton-Raphson iterations is not proved: the conjugacy
-      theorem takes the equation they solve as a hypothesis. *)
-From Coq Require Import Reals.
+      theorems take the equation they solve as a hypothesis. *)
+From Coq Require Import Reals List.
+From Coquelicot Require Import Coquelicot.
+Import ListNotations.
 Require Import Clarabel.Base.Ops Clarabel.Nonsym.Model Clarabel.Nonsym.FloatTrans Clarabel.Nonsym.Spec.
 Require Import Clarabel.Nonsym.LemmasExp Clarabel.Nonsym.LemmasPow Clarabel.Nonsym.LemmasAlg
                Clarabel.Nonsym.LemmasConj Clarabel.Nonsym.LemmasThird Clarabel.Nonsym.LemmasThirdPow
-               Clarabel.Nonsym.LemmasGp.
+               Clarabel.Nonsym.LemmasGp Clarabel.Nonsym.LemmasPow2 Clarabel.Nonsym.LemmasPowConj
+               Clarabel.Nonsym.LemmasGpD.
 
 (* membership predicates = interior of the cone / dual cone *)
 Theorem C14_exp_primal_feasible_iff : stmt_exp_primal_feasible_iff.
@@ -65,13 +67,40 @@ Proof. exact cholesky_3x3_ok. Qed.
 (* third-order correction = 1/2 D^3 f*(z)[H^{-1} ds, v] *)
 Theorem C14_exp_third_order : stmt_exp_third_order.
 Proof. exact exp_third_order_ok. Qed.
-Theorem C14_pow_third_order_partial : forall a z ds v, (0 < a < 1)%R -> pow_dual_int a z ->
-  (exists L, sym3_chol_factor TOpsR (snd (pow_grad_H TOpsR a z)) = Some L) ->
-  third_order (pow_grad_H TOpsR a) (pow_higher_correction TOpsR a) z ds v.
-Proof. exact pow_third_order_partial. Qed.
+Theorem C14_pow_hess_spd : stmt_pow_hess_spd.
+Proof. exact pow_hess_spd_ok. Qed.
+Theorem C14_pow_third_order : stmt_pow_third_order.
+Proof. exact pow_third_order_ok. Qed.
 (* primal gradient = conjugate map, given the omega equation *)
 Theorem C14_exp_primal_grad_conjugate : stmt_exp_primal_grad_conjugate.
 Proof. exact exp_primal_grad_conjugate_ok. Qed.
+Theorem C14_pow_primal_grad_conjugate : stmt_pow_primal_grad_conjugate.
+Proof. exact pow_primal_grad_conjugate_ok. Qed.
+(* genpow gradient = derivative of the dual barrier, fixed small dimensions *)
+Theorem C14_gp_grad_is_derivative_d21_partial : forall a b u0 u1 w0,
+  (0 < a -> 0 < b -> 0 < u0 -> 0 < u1 -> 0 < gp_zeta [a; b] [u0; u1] [w0] ->
+  let d := gp_grad_H TOpsR [a; b] [u0; u1] [w0] in
+  is_derive (fun t => gp_fstar [a; b] [t; u1] [w0]) u0 (nth 0 (gp_grad_u d) 0) /\
+  is_derive (fun t => gp_fstar [a; b] [u0; t] [w0]) u1 (nth 1 (gp_grad_u d) 0) /\
+  is_derive (fun t => gp_fstar [a; b] [u0; u1] [t]) w0 (nth 0 (gp_grad_w d) 0))%R.
+Proof. exact gp_grad_is_derivative_d21_partial. Qed.
+Theorem C14_gp_grad_is_derivative_d22_partial : forall a b u0 u1 w0 w1,
+  (0 < a -> 0 < b -> 0 < u0 -> 0 < u1 -> 0 < gp_zeta [a; b] [u0; u1] [w0; w1] ->
+  let d := gp_grad_H TOpsR [a; b] [u0; u1] [w0; w1] in
+  is_derive (fun t => gp_fstar [a; b] [t; u1] [w0; w1]) u0 (nth 0 (gp_grad_u d) 0) /\
+  is_derive (fun t => gp_fstar [a; b] [u0; t] [w0; w1]) u1 (nth 1 (gp_grad_u d) 0) /\
+  is_derive (fun t => gp_fstar [a; b] [u0; u1] [t; w1]) w0 (nth 0 (gp_grad_w d) 0) /\
+  is_derive (fun t => gp_fstar [a; b] [u0; u1] [w0; t]) w1 (nth 1 (gp_grad_w d) 0))%R.
+Proof. exact gp_grad_is_derivative_d22_partial. Qed.
+Theorem C14_gp_grad_is_derivative_d31_partial : forall a b c u0 u1 u2 w0,
+  (0 < a -> 0 < b -> 0 < c -> 0 < u0 -> 0 < u1 -> 0 < u2 ->
+  0 < gp_zeta [a; b; c] [u0; u1; u2] [w0] ->
+  let d := gp_grad_H TOpsR [a; b; c] [u0; u1; u2] [w0] in
+  is_derive (fun t => gp_fstar [a; b; c] [t; u1; u2] [w0]) u0 (nth 0 (gp_grad_u d) 0) /\
+  is_derive (fun t => gp_fstar [a; b; c] [u0; t; u2] [w0]) u1 (nth 1 (gp_grad_u d) 0) /\
+  is_derive (fun t => gp_fstar [a; b; c] [u0; u1; t] [w0]) u2 (nth 2 (gp_grad_u d) 0) /\
+  is_derive (fun t => gp_fstar [a; b; c] [u0; u1; u2] [t]) w0 (nth 0 (gp_grad_w d) 0))%R.
+Proof. exact gp_grad_is_derivative_d31_partial. Qed.
 (* primal-dual scaling: secant equations, semidefiniteness, fall-back mu H *)
 Theorem C14_pd_scaling : stmt_pd_scaling.
 Proof. exact pd_scaling_ok. Qed.
